@@ -35,8 +35,9 @@ async def _sub_n(f, log):
 
 
 @gen.coroutine
-def run_g(prog, futs, log):
+def run_g(prog, futs, log, trace_cv=False):
     log.append(("ctx", _var.get()))
+    tok = None
     i = 0
     n = len(prog)
     while i < n:
@@ -69,6 +70,19 @@ def run_g(prog, futs, log):
                 raise ValueError(a)
             elif op == 6:
                 return a
+            elif op == 8:
+                _var.set("set-%d-%d" % (i, a))
+            elif op == 9:
+                log.append(("cv", _var.get()))
+            elif op == 10:
+                tok = _var.set("tok-%d" % i)
+            elif op == 11:
+                if tok is None:
+                    log.append("no-token")
+                else:
+                    t, tok = tok, None
+                    _var.reset(t)
+                    log.append("reset-ok")
         except Exception as e:
             if not in_try:
                 raise
@@ -76,14 +90,17 @@ def run_g(prog, futs, log):
         finally:
             if in_try:
                 log.append("fin")
+        if trace_cv:
+            log.append(("cv@", i, _var.get()))
         i += 1
     log.append(("ctx2", _var.get()))
     return "end"
 
 
-async def run_n(prog, futs, log):
+async def run_n(prog, futs, log, trace_cv=False):
     import asyncio
     log.append(("ctx", _var.get()))
+    tok = None
     i = 0
     n = len(prog)
     while i < n:
@@ -113,6 +130,19 @@ async def run_n(prog, futs, log):
                 raise ValueError(a)
             elif op == 6:
                 return a
+            elif op == 8:
+                _var.set("set-%d-%d" % (i, a))
+            elif op == 9:
+                log.append(("cv", _var.get()))
+            elif op == 10:
+                tok = _var.set("tok-%d" % i)
+            elif op == 11:
+                if tok is None:
+                    log.append("no-token")
+                else:
+                    t, tok = tok, None
+                    _var.reset(t)
+                    log.append("reset-ok")
         except Exception as e:
             if not in_try:
                 raise
@@ -120,6 +150,8 @@ async def run_n(prog, futs, log):
         finally:
             if in_try:
                 log.append("fin")
+        if trace_cv:
+            log.append(("cv@", i, _var.get()))
         i += 1
     log.append(("ctx2", _var.get()))
     return "end"
@@ -145,7 +177,8 @@ def pre_eq(prog: List[Tuple[int, int]], r0: int, r1: int, e0: bool, e1: bool) ->
     stubs=["VLoop/FakeAio virtual loop (vp/env.py): callbacks FIFO", "tornado.gen.app_log replaced by a recorder",
            "program instructions: 0 await future a | 1 await list of both | 2 await dict of both | 3 moment (a=0) / "
            "None (a=1) vs asyncio.sleep(0) | 4 await native sub-coroutine awaiting future a | 5 raise ValueError(a) | "
-           "6 return a | 7 put the next instruction in try/except Exception/finally",
+           "6 return a | 7 put the next instruction in try/except Exception/finally (ops 8-11, the context-variable "
+           "instructions, are exercised by h_ctx)",
            "schedule: future i completes before the start (0), after the first loop turn (1) or after the second (2), "
            "with a result or a KeyError"],
     outside=["programs longer than N instructions", "more than two external futures", "cancellation of the coroutine",
@@ -201,6 +234,101 @@ def h_equiv(prog: List[Tuple[int, int]], r0: int, r1: int, e0: bool, e1: bool):
             if og == ("exc", "KeyError"):
                 reached("future_exception_propagates")
             # exceptions of futures nobody awaited may remain unretrieved; nothing else may escape to the loop
+            assert not env.v.exc_contexts, "exception escaped to the loop: %r" % (env.v.exc_contexts,)
+    finally:
+        gen.app_log = saved
+
+
+# ----------------------------------------------------------------------------------------------
+# Context variables ACROSS RESUMES: the coroutine modifies a ContextVar (set / token = set / reset(token)) before
+# and after suspension points (pending future, already-done future, gen.moment / None vs asyncio.sleep(0)); the
+# value is read after EVERY instruction and at the end.  Both forms must agree (trace and result/exception):
+# in the native form every resume runs in the task's one Context, so a set is visible after the next resume and
+# reset() of a pre-suspension token succeeds.
+CTX_OPS = ((10, 0), (8, 0), (11, 0), (0, 0), (3, 0))     # T token=set | S set | R reset(token) | W await f0 | M moment
+
+
+def pre_ctx(prog: List[int], pending: bool, use_none: bool, in_try: bool) -> bool:
+    if len(prog) > P.N:
+        return False
+    for c in prog:
+        if not 0 <= c <= 4:
+            return False
+    return in_shard((prog[0] if len(prog) > 0 else 0) + 5 * (prog[1] if len(prog) > 1 else 0))
+
+
+@harness(
+    pre=pre_ctx,
+    quick=dict(N=4, timeout=140, reach_timeout=60),
+    thorough=dict(N=5, timeout=1200, reach_timeout=90),
+    nshards=dict(quick=25, thorough=25),
+    reach=["reset_after_pending_wait", "set_then_moment_then_read", "reset_after_moment"],
+    units=["gen.coroutine (wrapper: copy_context, ctx_run)", "gen.Runner.__init__", "gen.Runner.run",
+           "gen.Runner.handle_yield (moment branch, pending-future branch `inner`)", "gen.convert_yielded"],
+    stubs=["VLoop/FakeAio virtual loop (vp/env.py); VLoop.add_callback copies the current context at scheduling time "
+           "(as asyncio call_soon does)",
+           "program alphabet: T token = cv.set | S cv.set | R cv.reset(token) (logs no-token when none is held) | "
+           "W await future 0 | M gen.moment (use_none: None) vs asyncio.sleep(0); the variable is read and logged "
+           "after every instruction and at the end; in_try wraps the LAST instruction in try/except/finally",
+           "future 0 is already done before the start or completes after the first loop turn (pending)"],
+    outside=["programs longer than N instructions", "several context variables", "contexts of sub-coroutines"],
+)
+def h_ctx(prog: List[int], pending: bool, use_none: bool, in_try: bool):
+    saved = gen.app_log
+    gen.app_log = _Log()
+    try:
+        with install() as env:
+            tok = _var.set("caller-value")
+            try:
+                full = []
+                for j, c in enumerate(prog):
+                    op = CTX_OPS[0] if c == 0 else CTX_OPS[1] if c == 1 else CTX_OPS[2] if c == 2 else \
+                        CTX_OPS[3] if c == 3 else CTX_OPS[4]
+                    if op[0] == 3 and use_none:
+                        op = (3, 1)
+                    if in_try and j == len(prog) - 1:
+                        full.append((7, 0))
+                    full.append(op)
+                logs = ([], [])
+                futs = ([env.aio.create_future(), env.aio.create_future()],
+                        [env.aio.create_future(), env.aio.create_future()])
+                if not pending:
+                    for fs in futs:
+                        fs[0].set_result(100)
+                fg = run_g(full, futs[0], logs[0], True)
+                fn_ = env.spawn(run_n(full, futs[1], logs[1], True))
+                env.run_ready()
+                if pending:
+                    for fs in futs:
+                        fs[0].set_result(100)
+                for _ in range(2):
+                    env.run_ready()
+                    env.advance(0)
+                assert _var.get() == "caller-value", "the coroutine's changes leaked into the caller's context"
+            finally:
+                _var.reset(tok)
+            og, on = outcome(fg), outcome(fn_)
+            assert og[0] != "pending" and on[0] != "pending", "a form never finished: %r / %r" % (og, on)
+            assert logs[0] == logs[1], "side-effect traces differ: generator %r, native %r" % (logs[0], logs[1])
+            assert og == on, "final states differ: generator %r, native %r" % (og, on)
+            if og[0] == "exc":
+                eg, en = fg.exception(), fn_.exception()
+                assert type(eg) is type(en), "exceptions differ: %r / %r" % (eg, en)
+            # vacuity witnesses: a suspension point lies between the modification and the read / reset
+            ks = list(prog)
+            first_w = ks.index(3) if 3 in ks else -1
+            for r in range(len(ks)):
+                if ks[r] != 2:
+                    continue
+                held = [t for t in range(r) if ks[t] == 0 and 2 not in ks[t:r] and 0 not in ks[t + 1:r]]
+                for t in held:
+                    if pending and t < first_w < r:
+                        reached("reset_after_pending_wait")
+                    if 4 in ks[t:r]:
+                        reached("reset_after_moment")
+            for m_ in range(len(ks)):
+                if ks[m_] == 4 and 1 in ks[:m_]:
+                    reached("set_then_moment_then_read")
             assert not env.v.exc_contexts, "exception escaped to the loop: %r" % (env.v.exc_contexts,)
     finally:
         gen.app_log = saved
